@@ -95,6 +95,14 @@ def A(pid, parts, tier):
     return algchk.run_parts(pid, parts, SEED, tier == 'thorough').obls
 
 
+def run_c03(tier):
+    return A('C03', ['wrappers', 'normalize', 'gabs_toaffine'], tier)
+
+
+def run_c14(tier):
+    return A('C14', ['sqrt'], tier)
+
+
 def run_c04(tier):
     return A('C04', ['gabs_law', 'consts'], tier)
 
@@ -161,6 +169,13 @@ def run_c18(tier):
 
 
 PROPS = {
+    'C14': dict(run=run_c14, level='proof', trusted_base=ATRUST + ['-2 and 2 are quadratic non-residues mod q, -1 is a residue (recomputed numerically)', 'contract of Fq::sqrt: Some(s) with s^2 = x exactly for squares, either root'],
+                not_covered=['Fq::sqrt itself (exponentiation chains over the real limb code: one symbolic Montgomery product is out of reach of CBMC, and its log-domain model (overlay variant U) was not built); only its contract is assumed',
+                             'leaves of the general task outside the three stratified families'],
+                explanation='every path of the real Fq2::sqrt over symbolic inputs; soundness: the final equality s^2 = x is decided on every Some leaf; completeness: on x = c^2, on real x (residue and non-residue, both roots of the norm) and on purely imaginary x every FEASIBLE leaf returns the expected answer, feasibility decided by quadratic-character reasoning over the leaf decisions'),
+    'C03': dict(run=run_c03, level='proof', trusted_base=ATRUST + ['dependency (taint) analysis of the symbolic result DAG; to_affine itself is verified under C15'],
+                not_covered=['that the three entry points return the SAME value on non-identity inputs (that is C02 for each of them: value of the 65-step Miller loop)'],
+                explanation='whole pairing entry points executed symbolically (Miller loop + final exponentiation, ~10^5 DAG nodes); the result may reach the raw Jacobian coordinates only through the to_affine outputs'),
     'C04': dict(run=run_c04, level='proof', trusted_base=ATRUST, not_covered=['associativity as such (a theorem about the curve once + is the chord-and-tangent law)'], explanation=''),
     'C15': dict(run=run_c15, level='proof', trusted_base=ATRUST, not_covered=['separating P from -P uses: no point of order two (group orders are odd)'], explanation=''),
     'C12': dict(run=run_c12, level='proof', trusted_base=ATRUST + KTRUST, not_covered=['lazy-reduction multiplier sum_of_products::<2> (engine L, pending integration)'], explanation=''),
